@@ -7,6 +7,9 @@ Leg M: TLC checks (MC_Reuse) that on every (training frame, follow-up frame, for
 Leg R: every case is executed: fit, then spec.get_model_matrix / model_matrix(spec, ...) on the
        follow-up data (also with the pickled spec); observed exception class, warning
        categories, names and cells are compared with the model.
+       ModelSpec.subset: every restriction of the recorded spec to some of its terms keeps the structure, levels and kinds recorded
+       for them (SubsetMatchesParent: the parent's columns for those terms, on every row both keep; SubsetIdentity; TLC refutes the
+       restriction that derives its structure afresh and the one that re-discovers levels); every restriction is replayed.
 Leg S: the object that carries out a replay has a past (MC_ReuseSession): one materializer over the follow-up data is
        first asked for fresh formulas / the recorded spec, then for the recorded spec; TLC proves the outcome independent
        of the past when every call starts from empty caches (and refutes the design that keeps the evaluated factors:
@@ -106,7 +109,14 @@ def run(ctx: Ctx) -> None:
                 "as text, nulls) x 9 formulas (factors alone, in interactions, C() with sum/helmert contrasts, center(), literal scale); "
                 "non-trivial = follow-up differs from training in kind or level set")
     ctx.trusted = ["gamma/alpha of the materializer family", "TLC"]
-    cases = [c for c in reuselib.run_model(ctx, "c09", 1, ["NamesFromSpecAlone", "KindChangeIsAnError", "UnseenAnnounced"]) if not c["sel"]]
+    cases = [c for c in reuselib.run_model(ctx, "c09", 1, ["NamesFromSpecAlone", "KindChangeIsAnError", "UnseenAnnounced", "SubsetMatchesParent", "SubsetIdentity"]) if not c["sel"]]
+    # the subset law is not vacuous on the family: TLC refutes the restriction that derives its structure afresh and the one that forgets the recorded levels
+    for inv in ("SubsetRescoped", "SubsetRelevelled"):
+        v = run_tlc("MC_Reuse", f"SPECIFICATION Spec\nCONSTANTS\n  Emit = FALSE\n  MaxSel = 0\nINVARIANT {inv}\n", tag="c09v", timeout=3000)
+        if inv not in v.violated:
+            raise MachineryError(f"MC_Reuse: {inv} is not violated: the bounded family does not tell a restricted spec from a rebuilt one")
+        ctx.notes["subset_variant_" + inv] = "violated (as it must be)"
+    ctx.require("replay: restrictions of a recorded spec (ModelSpec.subset) judged on follow-up data", sum(len(c.get("subsets") or []) for c in cases), 500)
     res = pmap("harness.reuselib", "replay_case", cases, chunk=20)
     for c, (bad, n) in zip(cases, res):
         ctx.traces += n
